@@ -491,7 +491,7 @@ def crowd_case(case):
                 raise Violation(f'{n} agents, template {list(tmpl)} tag {tag}: get_agents differs from the exact filter in '
                                 f'joining order', expected=[a.id for a in exp[:6]], observed=[getattr(a, 'id', a) for a in got[:6]])
             ids = {id(a) for a in exp}
-            for _ in range(12):
+            for _ in range(12 if n < 5000 else 2):
                 r = env.get_random_agent(*targs, **kw)
                 if (r is None) != (not exp) or (r is not None and id(r) not in ids):
                     raise Violation(f'{n} agents, template {list(tmpl)} tag {tag}: get_random_agent outside the filter',
@@ -674,15 +674,17 @@ def run(ctx):
             ctx.report(case, v)
             return
     ctx.leg('special_population', cases=6)
-    case = {'leg': 'crowd', 'n': 130 if ctx.small else 1300, 'seed': ctx.seed}
-    ctx.traces += 1
-    try:
-        ctx.transitions += hbfs._guard(crowd_case, case)
-        ctx.outcome(('crowd', case['n']))
-    except Violation as v:
-        ctx.report(case, v)
-        return
-    ctx.leg('crowd', note='1300 agents, 7 templates x 5 tag filters, 12 seeded picks each (membership only)')
+    for n in ((130,) if ctx.small else (1300, 12000) if ctx.tier == 'quick' else (1300, 12000, 70000)):
+        case = {'leg': 'crowd', 'n': n, 'seed': ctx.seed}
+        ctx.traces += 1
+        try:
+            ctx.transitions += hbfs._guard(crowd_case, case)
+            ctx.outcome(('crowd', case['n']))
+        except Violation as v:
+            ctx.report(case, v)
+            return
+    ctx.leg('crowd', note='1300 and 12000 (thorough also 70000) agents, 9 templates x 5 tag filters, seeded picks each '
+                          '(membership only)')
     for p in POOLS:
         case = {'leg': 'in_system', 'pool': p}
         ctx.traces += 1
